@@ -280,7 +280,7 @@ def _worker(task):
 
 def search(seed, tier):
     nchunks = 16
-    nmappings = 60 if tier == 'quick' else 800
+    nmappings = 50 if tier == 'quick' else 450
     tasks = [(seed, tier, c, nchunks, nmappings) for c in range(nchunks)]
     col = E.Collector()
     for d in E.pmap(_worker, tasks):
